@@ -37,7 +37,7 @@ func (k *TKey) UnmarshalText(b []byte) error { *k = TKey("K:" + string(b)); retu
 func (k TKey) MarshalText() ([]byte, error)  { return []byte(strings.TrimPrefix(string(k), "K:")), nil }
 
 var numLit = map[string]string{
-	"z": "0", "nz": "-0", "p7": "7", "p9": "9", "p12": "12", "n3": "-3", "n200": "-200", "p200": "200", "p300": "300", "p70000": "70000",
+	"z": "0", "nz": "-0", "p7": "7", "p9": "9", "p12": "12", "n3": "-3", "n200": "-200", "p200": "200", "p300": "300", "p40000": "40000", "p70000": "70000",
 	"p3e9": "3000000000", "p5e9": "5000000000", "p2_63": "9223372036854775808", "n2_63": "-9223372036854775808",
 	"p2_64": "18446744073709551616", "f1_5": "1.5", "f1_0": "1.0", "e1e2": "1e2", "f1e39": "1e39", "big": "1e400",
 }
@@ -48,6 +48,9 @@ var strLit = map[string][2]string{
 	"sesc": {`"a\né\"A\/"`, "a\né\"A/"}, "snull": {`"null"`, "null"}, "strue": {`"true"`, "true"},
 	"sq": {`"\"x\""`, `"x"`}, "ssur": {`"\ud800"`, "�"}, "sctl": {"\"a\x01b\"", "a\x01b"}, "sbad": {"\"a\xffb\"", "a�b"},
 	"old": {`"old"`, "old"}, "none": {`""`, ""},
+	"q7": {`"7"`, "7"}, "q200": {`"200"`, "200"}, "q300": {`"300"`, "300"}, "q40000": {`"40000"`, "40000"}, "q70000": {`"70000"`, "70000"},
+	"q3e9": {`"3000000000"`, "3000000000"}, "q5e9": {`"5000000000"`, "5000000000"}, "qn3": {`"-3"`, "-3"}, "q1_5": {`"1.5"`, "1.5"},
+	"q2_63": {`"9223372036854775808"`, "9223372036854775808"},
 	"shtml": {`"<a>&"`, "<a>&"}, "sls": {"\" \"", " "},
 }
 
@@ -596,7 +599,11 @@ func showRV(sb *strings.Builder, v reflect.Value, depth int) {
 	case reflect.String:
 		sb.WriteString(strconv.Quote(v.String()))
 	case reflect.Float32, reflect.Float64:
-		sb.WriteString(strconv.FormatFloat(v.Float(), 'g', -1, 64))
+		if v.Float() == 0 {
+			sb.WriteString("0") // the sign of zero is C19's subject; DeepEqual does not see it either
+		} else {
+			sb.WriteString(strconv.FormatFloat(v.Float(), 'g', -1, 64))
+		}
 	default:
 		sb.WriteString(fmt.Sprint(v.Interface()))
 	}
